@@ -149,6 +149,19 @@ def ref_contract(raw: np.ndarray, nd: int, fl):
     return pk(np.concatenate(parts, axis=1))
 
 
+def safe(fn):
+    try:
+        return fn()
+    except Exception as e:  # noqa
+        return e
+
+
+def describe(x) -> str:
+    if isinstance(x, Exception):
+        return f"raised {x!r}"
+    return f"shape {getattr(x, 'shape', None)} dtype {getattr(x, 'dtype', None)}"
+
+
 def mat(rows) -> str:
     return "[" + "; ".join(cq.blist(r) for r in rows) + "]"
 
@@ -201,7 +214,8 @@ def run(ctx: Ctx) -> int:
             dv = [rng.random() < 0.5 for _ in range(nd)]
             ov = [rng.random() < 0.5 for _ in range(no)]
             # placement must be observable: [D|O] != [O|D] and D, O not constant-equal
-            if nd == 0 or no == 0 or (dv + ov != ov + dv and any(dv + ov) and not all(dv + ov)):
+            mixed = lambda v: len(v) < 2 or (any(v) and not all(v))
+            if mixed(dv) and mixed(ov) and (nd == 0 or no == 0 or (dv + ov != ov + dv and dv[-1] != ov[0] and dv[0] != ov[-1])):
                 break
         det_cases.append((nd, no, dv, ov))
     SH = 2
@@ -381,14 +395,13 @@ def run(ctx: Ctx) -> int:
         except AttributeError as e:
             ctx.broken.append(f"correspondence:sampler state attributes changed ({e})")
             break
-        raw = dB._sample_batches(s, b)
+        raw = safe(lambda: dB._sample_batches(s, b))
         res = call(dA, s, fl, batch_size=b)
         ok_raw = isinstance(raw, np.ndarray) and raw.shape == (s, ND + NO) and raw.dtype == np.bool_
         ctx.count(("sweep-det", s, b, flag_key(fl)), nontrivial=True, bucket="sweep-detector")
         if not ok_raw:
             if limited("rows"):
-                ctx.violation(f"rows-shots{s}-batch{b}", f"detector sampler _sample_batches({s}, {b}) returned shape {getattr(raw, 'shape', None)} dtype "
-                              f"{getattr(raw, 'dtype', None)}, expected {(s, ND + NO)} bool",
+                ctx.violation(f"rows-shots{s}-batch{b}", f"detector sampler _sample_batches({s}, {b}) returned {describe(raw)}, expected {(s, ND + NO)} bool",
                               {"kind": "sweep", "sampler": "detector", "circuit": noisy_det, "seed": seed, "shots": s, "batch_size": b})
             continue
         seen_rows.update(tuple(r) for r in raw.tolist())
@@ -404,12 +417,11 @@ def run(ctx: Ctx) -> int:
         if len(model_cases) < (60 if quick else 300) and (s <= 12 or k % 9 == 0):
             model_cases.append((fl, raw.tolist(), got))
         # measurement sampler
-        r1 = mA.sample(s, batch_size=b)
+        r1 = safe(lambda: mA.sample(s, batch_size=b))
         ctx.count(("sweep-meas", s, b), nontrivial=True, bucket="sweep-measurement")
         if not (isinstance(r1, np.ndarray) and r1.shape == (s, NM) and r1.dtype == np.bool_):
             if limited("rows"):
-                ctx.violation(f"rows-shots{s}-batch{b}", f"measurement sampler sample({s}, batch_size={b}) returned shape {getattr(r1, 'shape', None)} "
-                              f"dtype {getattr(r1, 'dtype', None)}, expected {(s, NM)} bool",
+                ctx.violation(f"rows-shots{s}-batch{b}", f"measurement sampler sample({s}, batch_size={b}) returned {describe(r1)}, expected {(s, NM)} bool",
                               {"kind": "sweep", "sampler": "measurement", "circuit": noisy_meas, "seed": seed, "shots": s, "batch_size": b})
     ctx.cov["distinct_raw_rows_seen"] = len(seen_rows)
     if model_usable and model_cases:
@@ -426,9 +438,9 @@ def run(ctx: Ctx) -> int:
     for b in (1, 3, 7):
         p1 = tsim.Circuit(noisy_meas).compile_sampler(seed=seed + b)
         p2 = tsim.Circuit(noisy_meas).compile_sampler(seed=seed + b)
-        a1, a2 = p1.sample(11, batch_size=b), p2.sample(40, batch_size=b)
+        a1, a2 = safe(lambda: p1.sample(11, batch_size=b)), safe(lambda: p2.sample(40, batch_size=b))
         ctx.count(("prefix", b), bucket="prefix")
-        if not np.array_equal(a1, a2[:11]):
+        if isinstance(a1, Exception) or isinstance(a2, Exception) or not np.array_equal(a1, a2[:11]):
             ctx.violation(f"prefix-batch{b}", f"same seed, batch_size={b}: sample(11) is not the first 11 rows of sample(40)",
                           {"kind": "prefix", "circuit": noisy_meas, "seed": seed + b, "batch_size": b})
 
